@@ -31,7 +31,19 @@ def check_encoders(chk):
     if len(ctors) < 2:
         raise Unrecognised('C14.E', f'{len(ctors)} JSON encoder constructions found', vmod.rel)
     for c in ctors:
-        kw = {k.arg: k.value for k in c.keywords}
+        kw = {k.arg: k.value for k in c.keywords if k.arg is not None}
+        opaque_kwargs = False
+        for k in c.keywords:
+            if k.arg is None:        # **OPTIONS: a module-level dict literal of constant options is expanded, anything else is not decided
+                src = vmod.assigns.get(k.value.id, [None])[0] if isinstance(k.value, ast.Name) and len(vmod.assigns.get(k.value.id, [])) == 1 else None
+                if isinstance(src, ast.Dict) and all(isinstance(x, ast.Constant) and isinstance(x.value, str) for x in src.keys):
+                    for kk, vv in zip(src.keys, src.values):
+                        kw.setdefault(kk.value, vv)
+                else:
+                    opaque_kwargs = True
+        if opaque_kwargs:
+            chk.unrec('C14.E', f'encoder options of {norm(c)[:70]} are passed through ** of a value that is not a module-level dict literal', vmod.rel)
+            continue
         indent = 'indent' in kw
         problems = []
         if not (isinstance(kw.get('sort_keys'), ast.Constant) and kw['sort_keys'].value is True):
@@ -44,8 +56,18 @@ def check_encoders(chk):
         want = (',', ': ') if indent else (',', ':')
         if sep != want:
             problems.append(f'separators {sep!r} differ from the layout {want!r}')
-        if 'default' in kw or 'cls' in kw:
-            problems.append('default/cls overridden')
+        if 'cls' in kw:
+            problems.append('cls overridden')
+        if 'default' in kw:
+            dname = norm(kw['default'])
+            dfn = vmod.funcs.get(dname)
+            rets_d = [norm(r.value) if r.value is not None else 'None' for r in walk_no_nested(dfn) if isinstance(r, ast.Return)] if dfn is not None else None
+            if dfn is None:
+                chk.unrec('C14.E', f'default= hook {dname} of {norm(c)[:50]} is not a module-level function', vmod.rel)
+                continue
+            arg0 = dfn.args.args[0].arg if dfn.args.args else ''
+            if not (set(rets_d) <= {f'value_string({arg0})', 'None'} and f'value_string({arg0})' in rets_d):
+                problems.append(f'the default= hook {dname} returns {rets_d}: it must map datetimes/functions through value_string and everything else to null')
         for p in problems:
             chk.bad('C14.E', vmod, 'value_json', f'{norm(c)[:80]}: {p.split(":")[0]}', p, node=c)
         if not problems:
@@ -53,9 +75,16 @@ def check_encoders(chk):
     # default()
     dflt = vmod.funcs.get('_JSONEncoder.default')
     if dflt is None:
-        raise Unrecognised('C14.E', '_JSONEncoder.default not found', vmod.rel)
-    rets = [norm(r.value) if r.value is not None else 'None' for r in walk_no_nested(dflt) if isinstance(r, ast.Return)]
-    if set(rets) <= {'value_string(o)', 'None'} and 'value_string(o)' in rets:
+        hooks = [c for c in ctors if any(k.arg == 'default' for k in c.keywords) or any(k.arg is None for k in c.keywords)]
+        if len(hooks) == len(ctors):
+            chk.ok('C14.E', 'every encoder is given a default= hook (checked with its constructor) instead of a subclass')
+            dflt = False
+        else:
+            raise Unrecognised('C14.E', '_JSONEncoder.default not found', vmod.rel)
+    rets = [norm(r.value) if r.value is not None else 'None' for r in walk_no_nested(dflt) if isinstance(r, ast.Return)] if dflt else []
+    if dflt is False:
+        pass
+    elif set(rets) <= {'value_string(o)', 'None'} and 'value_string(o)' in rets:
         chk.ok('C14.E', 'encoder default(): datetimes and callables through value_string, everything else null')
     else:
         chk.bad('C14.E', vmod, '_JSONEncoder.default', str(rets), 'the encoder fallback must map datetimes/functions through value_string and everything else to null', node=dflt)
